@@ -9,6 +9,7 @@ import LbfgsbVerif.Model.SF
 import LbfgsbVerif.Model.Shell
 import LbfgsbVerif.Generated.BenchF
 import LbfgsbVerif.Model.Compact
+import LbfgsbVerif.Model.Cauchy
 import Std.Data.HashMap
 
 open Lbfgsb
@@ -293,6 +294,11 @@ def handleShell (c : Ctx) (toks : List String) : Option (Ctx × List String) :=
     setTab fun t => { t with UPD := t.UPD.insert (keyV x) (.ok { f0, f0Old, grad, G }) }
   | ["SC", r] => (parseRes r parseF).bind fun r => setTab fun t => { t with SC := r }
   | ["run"] => some (c, runShell c)
+  | ["cauchy", x, g, lb, ub, theta, w, minv, uf] => do
+    let x ← parseV x; let g ← parseV g; let lb ← parseV lb; let ub ← parseV ub
+    let theta ← parseF theta; let w ← parseVs w; let minv ← parseVs minv
+    let r := cauchy { x, g, lb, ub, theta, W := w, Minv := minv, useFactor := uf == "1", epsFsec := 1e-30 }
+    some (c, [s!"cauchy {showV r.1} {showV r.2}"])
   | ["compact", xs, gs, v] => do
     let X ← parseVs xs; let G ← parseVs gs; let v ← parseV v
     let bc := compactBv X G v
